@@ -455,7 +455,7 @@ def check(prop, tier, seed):
     json.dump(evidence, open(os.path.join(EVIDENCE_DIR, f"{prop}.json"), "w"), indent=1)
     log(f"{prop} [{tier}] events={n_events} rejected={len(bad)} violations={len(violations)} "
         f"known={sum(v[1] for v in known_hits.values())} wall={evidence['wall_s']}s")
-    if not violations:
+    if not violations and not os.environ.get("VERIF_KEEP"):
         os.remove(obs_path)
         os.remove(inp_path)
     return 1 if violations else 0
